@@ -87,6 +87,10 @@ impl<T> Trace<T> {
             }
         }
 
+        // A route with several ip constraints is traced once per matching constraint, it is still a single route
+        let mut seen = std::collections::HashSet::new();
+        routes.retain(|route| seen.insert(route.id().to_string()));
+
         routes
     }
 }
